@@ -154,3 +154,106 @@ proof fn lemma_count_p_is_cnt(ts: Seq<BaseToken>, k: int)
 {
 	if k > 0 { lemma_count_p_is_cnt(ts, k - 1); }
 }
+
+// ---- private zones (C17, parser side): the initialised prefix of the buffer is always well bracketed ----
+pub open spec fn marker(n: ParseNode) -> bool { n is StartPrivateZone || n is EndPrivateZone || n is EndlessPrivateZone }
+pub open spec fn cells(b: ParseBuffer) -> Seq<ParseNode> { Seq::new(b.num_nodes as nat, |i: int| mu_val(b.nodes@[i])->0) }
+pub open spec fn zidx(b: ParseBuffer) -> Option<int> { match b.active_private_zone { Some(z) => Some(u24v(z.0)), None => None } }
+// scan from i: closed zones are skipped as a whole, the only EndlessPrivateZone is the active one, and it is met iff there is one
+pub open spec fn wfs(s: Seq<ParseNode>, i: int, a: Option<int>) -> bool
+	decreases s.len() - i
+{
+	if i < 0 || i >= s.len() { a is None } else { match s[i] {
+		ParseNode::StartPrivateZone { end } => i < u24v(end.0) < s.len() && s[u24v(end.0)] is EndPrivateZone && wfs(s, u24v(end.0) + 1, a),
+		ParseNode::EndPrivateZone { .. } => false,
+		ParseNode::EndlessPrivateZone => a == Some(i),
+		_ => wfs(s, i + 1, a),
+	} }
+}
+pub open spec fn zinv(b: ParseBuffer) -> bool { wfs(cells(b), 0, zidx(b)) }
+
+proof fn lemma_wfs_push_plain(s: Seq<ParseNode>, i: int, a: Option<int>, n: ParseNode)
+	requires wfs(s, i, a), !marker(n), 0 <= i, a is Some ==> a->0 < s.len()
+	ensures wfs(s.push(n), i, a)
+	decreases s.len() - i
+{
+	let t = s.push(n);
+	if i >= s.len() {
+		assert(a is None);
+		if i == s.len() { assert(t[i] == n); assert(wfs(t, i + 1, a)); }
+	} else {
+		assert(t[i] == s[i]);
+		match s[i] {
+			ParseNode::StartPrivateZone { end } => { let e = u24v(end.0); assert(t[e] == s[e]); lemma_wfs_push_plain(s, e + 1, a, n); },
+			ParseNode::EndPrivateZone { .. } => {},
+			ParseNode::EndlessPrivateZone => {},
+			_ => { lemma_wfs_push_plain(s, i + 1, a, n); },
+		}
+	}
+}
+proof fn lemma_wfs_push_endless(s: Seq<ParseNode>, i: int)
+	requires wfs(s, i, None), 0 <= i <= s.len()
+	ensures wfs(s.push(ParseNode::EndlessPrivateZone), i, Some(s.len() as int))
+	decreases s.len() - i
+{
+	let t = s.push(ParseNode::EndlessPrivateZone);
+	if i >= s.len() {
+		if i == s.len() { assert(t[i] == ParseNode::EndlessPrivateZone); }
+	} else {
+		assert(t[i] == s[i]);
+		match s[i] {
+			ParseNode::StartPrivateZone { end } => { let e = u24v(end.0); assert(t[e] == s[e]); lemma_wfs_push_endless(s, e + 1); },
+			ParseNode::EndPrivateZone { .. } => {},
+			ParseNode::EndlessPrivateZone => {},
+			_ => { lemma_wfs_push_endless(s, i + 1); },
+		}
+	}
+}
+// closing the active zone z: push EndPrivateZone at index len and turn cell z into StartPrivateZone{end: len}
+proof fn lemma_wfs_close(s: Seq<ParseNode>, i: int, z: int, endn: ParseNode, startn: ParseNode)
+	requires wfs(s, i, Some(z)), 0 <= i, 0 <= z < s.len(), s[z] is EndlessPrivateZone, endn is EndPrivateZone,
+		startn is StartPrivateZone, u24v(startn->StartPrivateZone_end.0) == s.len()
+	ensures wfs(s.push(endn).update(z, startn), i, None)
+	decreases s.len() - i
+{
+	let t = s.push(endn).update(z, startn);
+	if i >= s.len() {
+	} else if i == z {
+		assert(t[z] == startn);
+		assert(t[s.len() as int] == endn);
+		assert(wfs(t, s.len() as int + 1, None));
+	} else {
+		assert(t[i] == s[i]);
+		match s[i] {
+			ParseNode::StartPrivateZone { end } => {
+				let e = u24v(end.0);
+				assert(e != z);
+				assert(t[e] == s[e]);
+				lemma_wfs_close(s, e + 1, z, endn, startn);
+			},
+			ParseNode::EndPrivateZone { .. } => {},
+			ParseNode::EndlessPrivateZone => {},
+			_ => { lemma_wfs_close(s, i + 1, z, endn, startn); },
+		}
+	}
+}
+proof fn lemma_wfs_update_plain(s: Seq<ParseNode>, i: int, a: Option<int>, k: int, n: ParseNode)
+	requires wfs(s, i, a), 0 <= i, 0 <= k < s.len(), !marker(s[k]), !marker(n)
+	ensures wfs(s.update(k, n), i, a)
+	decreases s.len() - i
+{
+	let t = s.update(k, n);
+	if i >= s.len() {
+	} else if i == k {
+		assert(t[i] == n);
+		lemma_wfs_update_plain(s, i + 1, a, k, n);
+	} else {
+		assert(t[i] == s[i]);
+		match s[i] {
+			ParseNode::StartPrivateZone { end } => { let e = u24v(end.0); assert(e != k); assert(t[e] == s[e]); lemma_wfs_update_plain(s, e + 1, a, k, n); },
+			ParseNode::EndPrivateZone { .. } => {},
+			ParseNode::EndlessPrivateZone => {},
+			_ => { lemma_wfs_update_plain(s, i + 1, a, k, n); },
+		}
+	}
+}
